@@ -152,5 +152,38 @@ def check_local(case, ctx):
         ctx.le("llf2ecef has determinant +1", abs(np.linalg.det(M1) - 1.0), 1e-14, route=r)
 
 
+def check_int_scalars(case, ctx):
+    """whole-number coordinates / angles typed as Python int or NumPy integers: the same numbers must give the same result as floats"""
+    from ahrs.common import frames as f
+    p = case.p
+    e, n, u = (int(round(x)) for x in (p["enu"] / np.abs(p["enu"]).max() * 400.0))
+    la0, lo0, h0, ang = int(np.clip(round(p["lat0"]), -89, 89)), int(round(p["lon0"])), int(round(p["h0"])), int(round(p["angle"]))
+    X, Y, Z = (int(round(x)) for x in p["P"])
+    specs = (("enu<->aer", lambda a, b, c: f.enu2aer(a, b, c), (e, n, u)), ("enu<->aer", lambda a, b, c: f.aer2enu(a, b, c), (ang, la0 % 90, 250)),
+             ("enu<->dca", lambda a, b, c, d: f.enu2dca(a, b, c, d), (e, n, u, ang)), ("enu<->dca", lambda a, b, c, d: f.dca2enu(a, b, c, d), (e, n, u, ang)),
+             ("ecef<->enu", lambda a, b, c, d, g, h: f.enu2ecef(a, b, c, d, g, h), (e, n, u, la0, lo0, h0)),
+             ("ecef<->enu", lambda a, b, c, d, g, h: f.ecef2enu(a, b, c, d, g, h), (X, Y, Z, la0, lo0, h0)),
+             ("ecef<->enu", lambda a, b, c, d, g: f.enu2uvw(a, b, c, d, g), (e, n, u, la0, lo0)),
+             ("ecef<->enu", lambda a, b, c, d, g, h, i, j: f.ecef2enuv(a, b, c, d, g, h, i, j), (X, Y, Z, X - 1000, Y + 500, Z - 250, la0, lo0)),
+             ("geodetic<->ecef", lambda a, b, c: f.geodetic2ecef(a, b, c), (la0, lo0, h0)), ("geodetic<->ecef", lambda a, b, c: f.ecef2geodetic(a, b, c), (X, Y, Z)),
+             ("geodetic2enu", lambda a, b, c, d, g, h: f.geodetic2enu(a, b, c, d, g, h), (la0, lo0, h0, la0 + 1, lo0 - 1, h0 + 100)),
+             ("llf<->ecef", lambda a, b: f.llf2ecef(a, b), (la0, lo0)))
+    for r, fn, args in specs:
+        base = call(lambda: np.asarray(fn(*[float(x) for x in args]), float))
+        if not base.ok:
+            continue
+        for lab, conv in (("int", int), ("np.int64", np.int64)):     # (not int32: squaring ECEF metres overflows 32 bits - NumPy's own semantics)
+            out = call(lambda: np.asarray(fn(*[conv(x) for x in args]), float))
+            if not out.ok:
+                ctx.note("int-typed scalars refused/crashed with %s (recorded, not judged)" % out.exc_name)
+                continue
+            sc = max(1.0, float(np.abs(base.value).max()))
+            ok = out.value.shape == base.value.shape
+            ctx.le("whole-number coordinates typed as int give the same result as floats", float(np.abs(out.value - base.value).max() / sc) if ok else float("inf"), 1e-12,
+                   {"type": lab, "args": list(args), "int": out.value, "float": base.value}, route=r)
+
+
 def check(case, ctx):
     (check_geodetic if case.route == "geodetic" else check_local)(case, ctx)
+    if case.route != "geodetic":
+        check_int_scalars(case, ctx)
